@@ -1,17 +1,24 @@
 /* Engine `modes` (C12): drives the xterm driver's control interface, pause/resume/teardown and the
  * toplevel instance's setup on a headless terminal (termtype "xterm", output function).
  *
- *   new term|tickit|tickitb [...]   build (tickit = tickit_new_for_term, tickitb = tickit_build with its own,
- *                                   buffered, terminal); extra tokens describe the VT's initial state (driver only)
+ *   new term|tickit|tickitb [buf=N] [...]   build (tickit = tickit_new_for_term, tickitb = tickit_build with its own,
+ *                                   buffered, terminal); buf=N: the terminal gets an output buffer of N bytes
+ *                                   (tickitb without buf=: the toplevel's default); the other tokens describe the
+ *                                   VT's initial state (driver only)
  *   ctl <name|#num> <value>         tickit_term_setctl_int
  *   setstr <name|#num> <hex>        tickit_term_setctl_str
- *   setpen <pen> | chpen <pen>      pen = comma list of fg= bg= b= u= i= rv= s= af= bl= sp=   ("-" = empty)
+ *   setpen <pen> | chpen <pen>      pen = comma list of fg= bg= b= u= i= rv= s= af= bl= sp=   ("-" = empty);
+ *                                   a colour is <index> or <index>#rrggbb (palette index with an RGB8 refinement)
  *   print <hex> | clear | flush
  *   reply mode <m> <v> | reply shape <n> | reply sgr <colon> <rgb>     terminal replies through input_push_bytes
- *   await <msec> | pause | resume | teardown | unref
+ *   await <msec> | pause | resume | teardown
+ *   unref                           the owner drops its reference: tickit_unref of the toplevel instance, else
+ *                                   tickit_term_unref
+ *   termref | termunref             another holder takes / drops a reference to the terminal (tickit_term_ref/unref)
  *   tick [nosetup] | usealt <v>     (toplevel only)
  *
- * Observation (one line): ret=<r> out=<hex bytes delivered to the output function during the operation>
+ * Observation (one line): ret=<r> out=<hex bytes that had reached the output function when the call returned>
+ *   held=<hex bytes still in the terminal's output buffer at that moment (the harness flushes them out afterwards)>
  *   ctl=<altscreen,cursorvis,mouse,cursorblink,cursorshape,keypad_app,colors,cap_cursorshape,cap_slrm,cap_csi_sub_colon,cap_rgb8>
  *   pen=<cached terminal pen> [ua=<use_altscreen>]            or  `... gone closed=<n>` after destruction.
  */
@@ -33,7 +40,9 @@ int __wrap_gettimeofday(struct timeval *tv, void *tz)
 
 static TickitTerm *tt;       /* borrowed when owned by `top` */
 static Tickit     *top;
-static int         dead;     /* destroyed */
+static int         dead;     /* the terminal is destroyed */
+static int         owner;    /* the owner's reference (the instance's, else the terminal's first one) is alive */
+static int         extra;    /* references taken by `termref` */
 static int         closed;   /* number of (NULL,0) calls of the output function */
 static char       *out;
 static size_t      outlen, outcap;
@@ -47,13 +56,13 @@ static void outfn(TickitTerm *t, const char *bytes, size_t len, void *user)
   outlen += len;
 }
 
-static void engine_begin(void) { tt = NULL; top = NULL; dead = 0; closed = 0; outlen = 0; }
+static void engine_begin(void) { tt = NULL; top = NULL; dead = 0; owner = 0; extra = 0; closed = 0; outlen = 0; }
 static void engine_end(void)
 {
   /* a history that does not end in destruction: release quietly so that LeakSanitizer only sees real leaks */
-  if(!dead) {
-    if(top) tickit_unref(top);
-    else if(tt) tickit_term_unref(tt);
+  if(!dead && tt) {
+    if(owner) { if(top) tickit_unref(top); else tickit_term_unref(tt); }
+    while(extra-- > 0) tickit_term_unref(tt);
   }
   free(out); out = NULL; outcap = outlen = 0;
 }
@@ -80,7 +89,10 @@ static void dump_pen(const TickitPen *p)
           : tab[i].kind == 1 ? tickit_pen_get_int_attr(p, tab[i].a)
           :                    tickit_pen_get_colour_attr(p, tab[i].a);
     obs("%s%s=%d", any ? "," : "", tab[i].n, v);
-    if(tab[i].kind == 2 && tickit_pen_has_colour_attr_rgb8(p, tab[i].a)) obs("#rgb");
+    if(tab[i].kind == 2 && tickit_pen_has_colour_attr_rgb8(p, tab[i].a)) {
+      TickitPenRGB8 c = tickit_pen_get_colour_attr_rgb8(p, tab[i].a);
+      obs("#%02x%02x%02x", c.r, c.g, c.b);
+    }
     any = 1;
   }
   if(!any) obs("-");
@@ -96,8 +108,14 @@ static TickitPen *parse_pen(const char *s)
     if(!eq) continue;
     *eq = 0;
     int v = atoi(eq + 1);
-    if(!strcmp(f, "fg")) tickit_pen_set_colour_attr(p, TICKIT_PEN_FG, v);
-    else if(!strcmp(f, "bg")) tickit_pen_set_colour_attr(p, TICKIT_PEN_BG, v);
+    if(!strcmp(f, "fg") || !strcmp(f, "bg")) {
+      TickitPenAttr a = f[0] == 'f' ? TICKIT_PEN_FG : TICKIT_PEN_BG;
+      tickit_pen_set_colour_attr(p, a, v);
+      char *hash = strchr(eq + 1, '#');
+      unsigned r, g, b;
+      if(hash && sscanf(hash + 1, "%2x%2x%2x", &r, &g, &b) == 3)
+        tickit_pen_set_colour_attr_rgb8(p, a, (TickitPenRGB8){ .r = r, .g = g, .b = b });
+    }
     else if(!strcmp(f, "b"))  tickit_pen_set_bool_attr(p, TICKIT_PEN_BOLD, v);
     else if(!strcmp(f, "u"))  tickit_pen_set_int_attr(p, TICKIT_PEN_UNDER, v);
     else if(!strcmp(f, "i"))  tickit_pen_set_bool_attr(p, TICKIT_PEN_ITALIC, v);
@@ -113,9 +131,14 @@ static TickitPen *parse_pen(const char *s)
 
 static void finish(const char *ret)
 {
-  if(!dead && tt) tickit_term_flush(tt);   /* make buffered bytes (tickitb) observable per operation */
+  /* what has reached the output function now that the call has returned, and what is still in the output
+   * buffer (made observable by a flush of the harness's own) */
+  size_t delivered = outlen;
+  if(!dead && tt) tickit_term_flush(tt);
   obs("ret=%s out=", ret);
-  obs_hex(out, outlen);
+  obs_hex(out, delivered);
+  obs(" held=");
+  obs_hex(out + delivered, outlen - delivered);
   outlen = 0;
   if(dead || !tt) { obs(" gone closed=%d", closed); return; }
   obs(" ctl=");
@@ -145,18 +168,23 @@ static void engine_op(int argc, char **argv)
 
   if(strcmp(op, "new") == 0) {
     const char *kind = argc > 1 ? argv[1] : "term";
+    size_t bufsize = 0;
+    for(int i = 2; i < argc; i++)
+      if(strncmp(argv[i], "buf=", 4) == 0) bufsize = strtoul(argv[i] + 4, NULL, 10);
     if(tt || top || dead) { obs("bad-op"); return; }
     if(strcmp(kind, "tickitb") == 0) {
       top = tickit_build(&(struct TickitBuilder){
-        .term_builder = { .termtype = "xterm", .output_func = outfn, .output_func_user = NULL } });
+        .term_builder = { .termtype = "xterm", .output_func = outfn, .output_func_user = NULL, .output_buffersize = bufsize } });
       tt = top ? tickit_get_term(top) : NULL;
     }
     else {
-      tt = tickit_term_build(&(struct TickitTermBuilder){ .termtype = "xterm", .output_func = outfn, .output_func_user = NULL });
+      tt = tickit_term_build(&(struct TickitTermBuilder){ .termtype = "xterm", .output_func = outfn, .output_func_user = NULL,
+                                                          .output_buffersize = bufsize });
       if(tt && strcmp(kind, "tickit") == 0)
         top = tickit_new_for_term(tt);
     }
     if(!tt) { obs("build-failed"); return; }
+    owner = 1;
     finish("-");
     return;
   }
@@ -202,8 +230,18 @@ static void engine_op(int argc, char **argv)
   else if(strcmp(op, "resume") == 0) tickit_term_resume(tt);
   else if(strcmp(op, "teardown") == 0) tickit_term_teardown(tt);
   else if(strcmp(op, "unref") == 0) {
+    if(!owner) { obs("bad-op"); return; }
     if(top) tickit_unref(top); else tickit_term_unref(tt);
-    dead = 1;
+    top = NULL;
+    owner = 0;
+    if(!extra) dead = 1;
+  }
+  else if(strcmp(op, "termref") == 0) { tickit_term_ref(tt); extra++; }
+  else if(strcmp(op, "termunref") == 0) {
+    if(!extra) { obs("bad-op"); return; }
+    tickit_term_unref(tt);
+    extra--;
+    if(!extra && !owner) dead = 1;
   }
   else if(strcmp(op, "tick") == 0 && top) {
     tickit_tick(top, TICKIT_RUN_NOHANG | (argc > 1 && strcmp(argv[1], "nosetup") == 0 ? TICKIT_RUN_NOSETUP : 0));
